@@ -49,6 +49,8 @@
 #include <sys/mman.h>
 #include <unistd.h>
 
+#include <exception>
+
 #include <tao/pegtl.hpp>
 #include <tao/pegtl/contrib/json.hpp>
 #include <tao/pegtl/contrib/unescape.hpp>
@@ -67,19 +69,47 @@ static long g_page = 4096;
 static volatile const char* g_cur_what = nullptr;  // what the library is working on (for the fault handler)
 static std::string g_cur_case;
 
+static volatile bool g_cur_is_append = false;  // current call is utf8_append_utf32( "ab", g_cur_cp )
+static volatile unsigned g_cur_cp = 0;
+
+// The library call in progress died (over-read into the guard page, std::terminate, failed assert): report it as a
+// violation of the current case, write the STAT line (not exhaustive) and leave.
+static void crash_report( const char* how )
+{
+   if( !g_cur_what ) {
+      fprintf( stderr, "c17: harness crashed outside a library call (%s)\n", how );
+      _exit( 3 );
+   }
+   const std::string what( const_cast< const char* >( g_cur_what ) );
+   g_cur_what = nullptr;
+   if( g_cur_is_append ) {
+      char cs[ 16 ];
+      snprintf( cs, sizeof cs, "%08x", unsigned( g_cur_cp ) );
+      g_cur_case = "append:" + std::string( cs ) + ":6162";
+   }
+   vf::violation( "C17|" + what + " " + how, "\"expected\":\"normal return or parse_error\",\"observed\":\"" + std::string( how ) + "\"", g_cur_case );
+   vf::st.exhaustive = false;
+   vf::st.note += " ABORTED after a crash inside the library; remaining domain not explored.";
+   vf::finish();
+   _exit( 0 );
+}
+
 static void on_fault( int, siginfo_t* si, void* )
 {
    const u8* a = static_cast< const u8* >( si->si_addr );
-   if( g_cur_what && a >= g_guard && a < g_guard + g_page ) {
-      const std::string what( const_cast< const char* >( g_cur_what ) );
-      vf::violation( "C17|" + what + " reads beyond the end of its input", "\"expected\":\"no access past the given size\",\"observed\":\"guard page fault\"", g_cur_case );
-      vf::st.exhaustive = false;
-      vf::st.note += " ABORTED after a guard page fault; remaining domain not explored.";
-      vf::finish();
-      _exit( 0 );
-   }
+   if( a >= g_guard && a < g_guard + g_page ) crash_report( "reads beyond the end of its input" );
    fprintf( stderr, "c17: unexpected fault at %p\n", si->si_addr );
    _exit( 3 );
+}
+
+static void on_abort( int )
+{
+   crash_report( "aborts the process (std::terminate or failed assert)" );
+}
+
+static void on_terminate()
+{
+   crash_report( "aborts the process (std::terminate or failed assert)" );
 }
 
 static void guard_init()
@@ -97,6 +127,8 @@ static void guard_init()
    sa.sa_flags = SA_SIGINFO;
    sigaction( SIGSEGV, &sa, nullptr );
    sigaction( SIGBUS, &sa, nullptr );
+   signal( SIGABRT, on_abort );
+   std::set_terminate( on_terminate );
 }
 
 // copy to the exact-size slot in front of the guard page
@@ -511,6 +543,7 @@ static bool check_append( const unsigned cp, const std::string& prefix, std::str
    u8 b[ 4 ];
    const unsigned n = oracle_utf8_encode( cp, b );
    scratch.assign( prefix );
+   g_cur_cp = cp;
    const bool r = pegtl::unescape::utf8_append_utf32( scratch, cp );
    ++vf::st.evaluations;
    ( n ? n_app_ok : n_app_refused )++;
@@ -581,7 +614,10 @@ static bool check_unhex_char( const char c )
       fprintf( stderr, "c17: unhex_char domain error\n" );  // "MUST only be called for characters matching xdigit"
       exit( 2 );
    }
+   g_cur_what = "unhex_char";
+   g_cur_case = std::string( "unhexc:" ) + type_name< T >() + ":" + vf::hex( std::string( 1, c ) );
    const T r = pegtl::unescape::unhex_char< T >( c );
+   g_cur_what = nullptr;
    ++vf::st.evaluations;
    ++n_unhex;
    if( r == T( d ) ) return true;
@@ -646,6 +682,16 @@ static std::string hex4( const unsigned v )
 
 static void t1_append()
 {
+   g_cur_what = "utf8_append_utf32";
+   g_cur_is_append = true;
+   struct Reset
+   {
+      ~Reset()
+      {
+         g_cur_what = nullptr;
+         g_cur_is_append = false;
+      }
+   } reset;
    std::string scratch;
    const std::string ab = "ab", none;
    for( unsigned long hi = 0; hi < 65536; ++hi ) {
